@@ -45,6 +45,10 @@ type Prover struct {
 
 // render builds the SMT-LIB text of an obligation.
 func (p *Prover) render(ob *Ob, globals []string) (string, []string) {
+	return p.renderV(ob, globals, true)
+}
+
+func (p *Prover) renderV(ob *Ob, globals []string, withLemmas bool) (string, []string) {
 	var body strings.Builder
 	for _, g := range globals {
 		body.WriteString(g)
@@ -62,7 +66,7 @@ func (p *Prover) render(ob *Ob, globals []string) (string, []string) {
 	}
 	var lem strings.Builder
 	for _, ln := range ob.Lemmas {
-		if ob.ExpectSat {
+		if ob.ExpectSat || !withLemmas {
 			break
 		}
 		if l, ok := p.Lib.Lemmas[ln]; ok {
@@ -164,10 +168,22 @@ func (p *Prover) discharge(ob *Ob, globals []string) *ObResult {
 		solver, status, out string
 		secs                float64
 	}
-	ch := make(chan ans, len(solvers))
+	// obligations that may use lemmas are also tried without them (quantified lemmas sometimes drown an easy goal)
+	files := []string{file}
+	if len(ob.Lemmas) > 0 && !ob.ExpectSat {
+		if t2, _ := p.renderV(ob, globals, false); t2 != text {
+			f2 := strings.TrimSuffix(file, ".smt2") + "-nolemmas.smt2"
+			os.WriteFile(f2, []byte(t2), 0o644)
+			files = append(files, f2)
+		}
+	}
+	nproc := len(solvers) * len(files)
+	ch := make(chan ans, nproc)
 	start := time.Now()
-	for _, s := range solvers {
+	for _, fl := range files {
+	  for _, s := range solvers {
 		s := s
+		file := fl
 		go func() {
 			args := s.args(file, timeout)
 			c, cc := context.WithTimeout(ctx, timeout+3*time.Second)
@@ -178,8 +194,13 @@ func (p *Prover) discharge(ob *Ob, globals []string) *ObResult {
 			if c.Err() != nil && st != "unsat" && st != "sat" {
 				st = "timeout"
 			}
-			ch <- ans{s.name, st, string(out), time.Since(start).Seconds()}
+			nm := s.name
+			if strings.HasSuffix(file, "-nolemmas.smt2") {
+				nm += "(no lemmas)"
+			}
+			ch <- ans{nm, st, string(out), time.Since(start).Seconds()}
 		}()
+	  }
 	}
 	want := "unsat"
 	other := "sat"
@@ -189,7 +210,7 @@ func (p *Prover) discharge(ob *Ob, globals []string) *ObResult {
 	best := ans{status: "unknown"}
 	var all []ans
 	agree := 0
-	for i := 0; i < len(solvers); i++ {
+	for i := 0; i < nproc; i++ {
 		a := <-ch
 		all = append(all, a)
 		res.Answers[a.solver] = a.status
